@@ -110,7 +110,7 @@ func runRandomHist(em *vEmitter, r *vRng, idx int, opt vHistOpts) {
 	if r.intn(4) == 0 {
 		os.Mkdir(h.base+"/.tmp", 0700)
 	}
-	users := append([]string{}, vUserPool[:2+r.intn(4)]...)
+	users := append([]string{}, vUserPool[:2+r.intn(5)]...) // up to "bob.x": a name that extends another one with a dot
 	if r.intn(3) == 0 {
 		users = append(users, strings.Repeat("n", 249), strings.Repeat("m", 250))
 	}
